@@ -51,7 +51,13 @@ type SUT struct {
 	nextID    int
 }
 
-func keyName(k int64) string { return fmt.Sprintf("p%d", k) }
+// partition names: key 3 is the empty name (a legal map key and predicate value like any other)
+func keyName(k int64) string {
+	if k == 3 {
+		return ""
+	}
+	return fmt.Sprintf("p%d", k)
+}
 
 func NewSUT(c StratCfg) (*SUT, error) {
 	s := &SUT{Cfg: c, Reg: newRecRegistry()}
